@@ -159,6 +159,13 @@ RunTagMajor ==
   /\ pc' = "exit"
   /\ UNCHANGED <<head, ncommits, dirty, version, run, hist>>
 
+\* the existing full version tags of the requested major with their relation to the request (used by the harness
+\* only to make sure every (request, existing tag) relation TLC generated is among the replayed cases)
+SameMajorFull(st) ==
+  IF ~ReqValid(st.version) THEN << >>
+  ELSE [n \in Blocking(st.tags, st.version) |->
+          [ge |-> ~VLess(NameTable[n], ReqTable[st.version]), k |-> st.tags[n].k, shared |-> st.tags[n].s # ""]]
+
 RunExit ==
   /\ pc = "exit"
   /\ pc' = "idle"
@@ -167,6 +174,7 @@ RunExit ==
           pre |-> [tags |-> run.pre.tags, head |-> run.pre.head, dirty |-> run.pre.dirty],
           permitted |-> Permitted(run.pre, run.flag),
           gates |-> GatesPass(run.pre),
+          same |-> SameMajorFull(run.pre),                              \* the tags the version gate is about
           allowed |-> Allowed(run.pre, run.flag),                       \* the contract's verdict table
           impl |-> [tags |-> tags, exit |-> run.exit]])                 \* what the code-shaped layer predicts
   /\ UNCHANGED <<tags, head, ncommits, dirty, version>>
